@@ -43,6 +43,17 @@ fn dispatch<P: Prop>(cmd: &str, args: &[String]) -> i32 {
                 }
             }
         }
+        "fuzzone" => {
+            // run one libFuzzer-style input (bytes = the strategy's random stream) natively
+            let bytes = std::fs::read(arg(args, "--file").expect("--file")).expect("read input");
+            let mut st: FuzzState<P> = FuzzState::new();
+            match st.decode(&bytes) {
+                Some(c) => println!("DECODED {}", serde_json::to_string(&c).unwrap()),
+                None => println!("DECODE-REJECTED"),
+            }
+            st.one(&bytes);
+            0
+        }
         "gen" => {
             let n: usize = arg(args, "--n").and_then(|s| s.parse().ok()).unwrap_or(100);
             gen_batch::<P>(tier, seed, n, &PathBuf::from(arg(args, "--file").expect("--file")));
